@@ -1,11 +1,16 @@
 pub mod busmap;
 pub mod common;
+pub mod control;
 pub mod decoder;
 pub mod elfcheck;
 pub mod flow;
+pub mod irq;
 pub mod memops;
+pub mod nocrash;
 pub mod periph;
 pub mod regops;
+pub mod runloop;
+pub mod syscall;
 
 use crate::gen::Group;
 use crate::util::{Cfg, Report};
@@ -22,6 +27,11 @@ pub fn run(id: &str, cfg: &Cfg) -> Option<Report> {
         "C20" => memops::c20(&mut rep, cfg),
         "C11" => elfcheck::run(&mut rep, cfg, "C11"),
         "C12" => elfcheck::run(&mut rep, cfg, "C12"),
+        "C10" => irq::c10(&mut rep, cfg),
+        "C14" => syscall::c14(&mut rep, cfg),
+        "C18" => control::c18(&mut rep, cfg),
+        "C15" => nocrash::c15(&mut rep, cfg),
+        "C13" => runloop::c13(&mut rep, cfg),
         "C09" => busmap::c09(&mut rep, cfg),
         "C19" => busmap::c19(&mut rep, cfg),
         "C16" => periph::c16(&mut rep, cfg),
@@ -63,6 +73,11 @@ pub fn replay(line: &str) -> (bool, String) {
             (bad, out)
         }
         "elf" => elfcheck::replay(line),
+        "irq" => irq::replay(line),
+        "program" | "lines" | "irqstep" | "maxwait" => nocrash::replay(line),
+        "syscall" | "child" => syscall::replay(line),
+        "control" | "e2e" => control::replay(line),
+        "runloop" | "binary" => runloop::replay(line),
         "ports" => periph::replay_ports(line),
         "timer" => periph::replay_timer(line),
         "history" => {
